@@ -112,7 +112,8 @@ example : analyze (.agg "count_values" .by_ ["a", "b"] (some (.str "a")) (.sel "
   Fragment (`FExpr`, Lemmas/ShardEval.lean): selectors, pointwise functions and filters (with or
   without dropping the metric name), aggregations `by (L)` / `without (L)` with ANY operator,
   one-to-one vector matching `on (L)` / `ignoring (L)` (arithmetic, comparison filters, `and`,
-  `unless`, `or`), nested to any depth.  `FExpr.toExpr` is what the analyzer sees, `FExpr.toV` what the engine
+  `unless`, `or`), many-to-one matching with `group_left (inc)` / `group_right (inc)`,
+  `histogram_quantile`, `label_replace` / `label_join` (dynamic labels), nested to any depth.  `FExpr.toExpr` is what the analyzer sees, `FExpr.toV` what the engine
   computes (spec-level semantics at one timestamp, `eval`). -/
 
 /-- abstract form: if no node changes the shard of a series, evaluating on each shard and
@@ -159,11 +160,13 @@ theorem C44_sound (hash : Labels → Nat) (total : Nat) (e : FExpr) (K : List St
       (eval e.toV S) ∧
     ∀ i j x y, x ∈ eval e.toV (S.filter fun s => shardMatches hash total i K by_ s.1) →
       y ∈ eval e.toV (S.filter fun s => shardMatches hash total j K by_ s.1) → x.1 = y.1 → i = j := by
-  have hinv : ScopeInv ⟨some K, by_⟩ e.scopes := by
-    have := scopeInv_fold e.scopes ⟨none, false⟩ [] rfl
+  have hall : ScopeInv ⟨some K, by_⟩ e.allScopes := by
+    have := scopeInv_fold e.allScopes ⟨none, false⟩ [] rfl
     rw [← foldScopes, ← analyze_fragment e hwf, ha] at this
     simpa using this
-  have hc := compat_of_scoped hash total K by_ e (scoped_of_inv K by_ hname e hwf hinv)
+  have hinv : ScopeInv ⟨some K, by_⟩ e.scopes :=
+    scopeInv_sub hall (fun sc hsc => by simp [FExpr.allScopes, hsc])
+  have hc := compat_of_scoped hash total K by_ e (scoped_of_inv K by_ hname e hwf (dyns_not_hashed hall) hinv)
   have hshard : ∀ i, (S.filter fun s => shardMatches hash total i K by_ s.1) = shardOf (shReal hash total K by_) i S := by
     intro i
     unfold shardOf shReal shardMatches
@@ -215,6 +218,15 @@ example : analyze (FExpr.bin "/" true ["a"] true (fun x y => y.map (x + ·))
 example : analyze (FExpr.bin "+" false ["b"] true (fun x y => y.map (x + ·)) (.sel "m0" fun _ => true) (.sel "m1" fun _ => true)).toExpr
     = ⟨some ["b", "__name__"], false⟩ := by decide
 example : NameSafe ["b", "__name__"] false := by simp [NameSafe]
+-- histogram_quantile(0.9, sum by (le, a) (…)) is sharded by a; label_replace's target is taken out of the by labels
+example : analyze (FExpr.histQ "0.9" (fun _ => 0) (.aggBy "sum" ["le", "a"] List.sum (.sel "h_bucket" fun _ => true))).toExpr
+    = ⟨some ["a"], true⟩ := by decide
+example : analyze (FExpr.aggBy "sum" ["a", "dst"] List.sum
+      (.labelFn "label_replace" "dst" ["$1", "a", "(.*)"] (fun _ => some "x") (.sel "m0" fun _ => true))).toExpr
+    = ⟨some ["a"], true⟩ := by decide
+-- many-to-one: m0 * on (a) group_left (pod) m1 is sharded by a
+example : analyze (FExpr.binMany "*" true ["a"] ["pod"] true (fun x y => some (x * y)) (.sel "m0" fun _ => true) (.sel "m1" fun _ => true)).toExpr
+    = ⟨some ["a"], true⟩ := by decide
 -- … and a without-query made safe by an explicit `__name__`
 example : analyze (FExpr.aggWithout "sum" ["a", "__name__"] List.sum (.sel "m0" fun _ => true)).toExpr = ⟨some ["a", "__name__"], false⟩ := by decide
 example : NameSafe ["a", "__name__"] false := by simp [NameSafe]
